@@ -239,10 +239,15 @@ def enum_cyclic(tier, worker, nworkers):
     for i, n in enumerate(names):
         if i % nworkers == worker:
             yield {"shape": n, "d": 7, "limits": [3, 100, 2000] if tier == "quick" else [0, 1, 3, 10, 100, 2000, 20000], "near": 0, "cli": False}
+    # every frame-growing shape once at a depth far above a small limit (the limit must be reached) and below a big one
+    growing = [n for n in NAMES if SHAPES[n][1]]
+    for i, n in enumerate(growing):
+        if i % nworkers == worker:
+            yield {"shape": n, "d": 3000, "limits": [5, 20, 1000000], "near": 0, "cli": False}
 
 
 CHECKS = [
-    Check("every_cyclic_shape", check_sweep, enumerate_fn=enum_cyclic, exhaustive=True),
+    Check("every_shape_once", check_sweep, enumerate_fn=enum_cyclic, exhaustive=True),
     Check("limit_sweep", check_sweep, sweep_case, quick=40, thorough=4000),
     Check("threshold_monotone_in_depth", check_threshold, threshold_case, quick=8, thorough=600),
 ]
